@@ -129,6 +129,16 @@ Example lifecycle_spec_inhabited :
   In 5 (s_must (sp_run sample_history)) /\ s_bad (sp_run sample_history) = false.
 Proof. exact sample_spec_must. Qed.
 
+(* non-vacuity with allocating destructors: the objects 10 and 11 allocated by the destructor of 1
+   are managed objects of the machine; teardown finalises them *)
+Example lifecycle_alloc_inhabited :
+  let s := run true true true alloc_history in
+  no_alloc_or_del_in_stop_window true true true alloc_history = true /\ bad s = false /\ torn s = false /\
+  fin_count s 1 = 1 /\ fin_count s 2 = 1 /\
+  info s 10 = Some (KManaged, false) /\ info s 11 = Some (KManaged, false) /\
+  fin_count (run true true true (alloc_history ++ [ETeardown []])) 11 = 1.
+Proof. exact alloc_history_ok. Qed.
+
 (* non-vacuity of the hypotheses of the theorems above *)
 Example lifecycle_hypotheses_inhabited :
   let s := run true true true sample_history in
